@@ -465,12 +465,65 @@ func checkC14(c *Ctx) {
 			if len(decs) > 0 {
 				nFn++
 			}
+			// decisions that are the conditions of one if / else-if chain classify together (like the case list of a switch)
+			chainRoot := func(d symDecision) *ast.IfStmt {
+				if len(d.leaves) == 0 {
+					return nil
+				}
+				var ifs *ast.IfStmt
+				for n := s.parents[d.leaves[0].node]; n != nil; n = s.parents[n] {
+					if x, ok := n.(*ast.IfStmt); ok {
+						inCond := false
+						for m := d.leaves[0].node; m != nil && m != ast.Node(x); m = s.parents[m] {
+							if m == ast.Node(x.Cond) {
+								inCond = true
+							}
+						}
+						if inCond {
+							ifs = x
+						}
+						break
+					}
+					if _, ok := n.(*ast.BlockStmt); ok {
+						break
+					}
+				}
+				for ifs != nil {
+					up, ok := s.parents[ifs].(*ast.IfStmt)
+					if !ok || up.Else != ast.Stmt(ifs) {
+						break
+					}
+					ifs = up
+				}
+				return ifs
+			}
+			chainLeaves := map[*ast.IfStmt][]symLeaf{}
+			for _, d := range decs {
+				if r := chainRoot(d); r != nil {
+					chainLeaves[r] = append(chainLeaves[r], d.leaves...)
+				}
+			}
 			for i, d := range decs {
 				nDec++
 				// group by operand
 				ops := map[string]*[2]bool{}
 				var order []string
-				for _, l := range d.leaves {
+				classify := d.leaves
+				if r := chainRoot(d); r != nil {
+					classify = chainLeaves[r]
+					own := map[string]bool{}
+					for _, l := range d.leaves {
+						own[l.operand] = true
+					}
+					var kept []symLeaf
+					for _, l := range classify {
+						if own[l.operand] {
+							kept = append(kept, l)
+						}
+					}
+					classify = kept
+				}
+				for _, l := range classify {
 					if ops[l.operand] == nil {
 						ops[l.operand] = &[2]bool{}
 						order = append(order, l.operand)
@@ -524,7 +577,30 @@ func checkC14(c *Ctx) {
 								hasLFNeighbour = true
 							}
 						}
-						_ = leaf
+						if !hasLFNeighbour {
+							// the CR half of a CRLF pair, looked for inside the body of an if that established the LF
+							for n := s.parents[leaf.node]; n != nil && !hasLFNeighbour; n = s.parents[n] {
+								x, ok := n.(*ast.IfStmt)
+								if !ok {
+									continue
+								}
+								inBody := false
+								for m := leaf.node; m != nil && m != ast.Node(x); m = s.parents[m] {
+									if m == ast.Node(x.Body) {
+										inBody = true
+									}
+								}
+								if inBody {
+									var lv []symLeaf
+									s.leavesOf(x.Cond, &lv)
+									for _, l := range lv {
+										if l.lf && !l.cr {
+											hasLFNeighbour = true
+										}
+									}
+								}
+							}
+						}
 						if hasLFNeighbour {
 							kinds["E1"]++
 							c.OK("SYM", key, d.pos, "E1: CR half of a CRLF look-ahead")
